@@ -11,6 +11,7 @@ from ..loader import AnalysisError, norm, own_nodes
 from ..report import RuleResult
 from ..rx import Cat, Hex, HexRange, Lit, included, regex_dfa, shape_dfa
 from .c04 import float_scaling_sites
+from .common import module_scope as _scope, pool as _pool
 
 META = {
     "explanation": (
@@ -24,6 +25,7 @@ META = {
         "and repetition of fragment packets (values/histories)."
     ),
 }
+META["explanation"] += ' C17.R6: _proc_payload_set is called only from _update_payload_set and only when `None in set` is false (or on the constant empty set). C17.R7: no function on the schedule codec path is memoised while returning a mutable container.'
 META["explanation"] += ' C17.R5: in _update_payload_set a received fragment whose count matches is always stored (or restarts the set).'
 
 S = "ramses_rf.system.schedule"
@@ -39,6 +41,45 @@ def _fields(fmt: str) -> tuple[str, int, list[tuple[int, int, str]]]:
     return order, struct.calcsize(fmt), out
 
 
+def _fold_or_none(ctx: Ctx, g, e):
+    if isinstance(e, ast.Constant):
+        return e.value
+    try:
+        return ctx.consts.eval_in(g, e)
+    except Exception:
+        return None
+
+
+def _strides_and_widths(ctx: Ctx, funcs: list, of: str | None = None) -> "tuple[list[int], list[int]]":
+    """(steps of `range(a, b, step)`, widths K of slices `x[v : v + K]`) found in funcs (constants folded)."""
+    steps, widths = [], []
+    for g, n in _pool(funcs):
+        if isinstance(n, ast.Call) and norm(n.func) == "range" and len(n.args) == 3:
+            k = _fold_or_none(ctx, g, n.args[2])
+            if isinstance(k, int):
+                steps.append(k)
+        if isinstance(n, ast.Subscript) and isinstance(n.slice, ast.Slice) and n.slice.lower is not None and n.slice.upper is not None and n.slice.step is None:
+            up, lo = n.slice.upper, n.slice.lower
+            if isinstance(up, ast.BinOp) and isinstance(up.op, ast.Add):
+                for a, b in ((up.left, up.right), (up.right, up.left)):
+                    k = _fold_or_none(ctx, g, b)
+                    if norm(a) == norm(lo) and isinstance(k, int) and not isinstance(a, ast.Constant):
+                        widths.append(k)
+    return steps, widths
+
+
+def _half_len(e: ast.expr, name: str) -> bool:
+    """int(len(name) / 2)  |  len(name) // 2  |  len(name) >> 1"""
+    if isinstance(e, ast.Call) and norm(e.func) == "int" and len(e.args) == 1:
+        a = e.args[0]
+        return isinstance(a, ast.BinOp) and isinstance(a.op, ast.Div) and norm(a.left) == f"len({name})" and norm(a.right) == "2"
+    if isinstance(e, ast.BinOp) and isinstance(e.op, ast.FloorDiv):
+        return norm(e.left) == f"len({name})" and norm(e.right) == "2"
+    if isinstance(e, ast.BinOp) and isinstance(e.op, ast.RShift):
+        return norm(e.left) == f"len({name})" and norm(e.right) == "1"
+    return False
+
+
 def check(ctx: Ctx) -> list[RuleResult]:
     repo = ctx.repo
     out: list[RuleResult] = []
@@ -50,10 +91,16 @@ def check(ctx: Ctx) -> list[RuleResult]:
     # ---- R1 ---------------------------------------------------------------------------
     r1 = RuleResult("R1", "pack/unpack format agreement", "same byte order, size (= stride) and field offsets/widths", min_instances=5)
 
+    enc_scope, dec_scope = _scope(ctx, enc), _scope(ctx, dec)
+    if pack not in enc_scope or unpack not in dec_scope:
+        raise AnalysisError("the schedule encoder/decoder no longer reach _struct_pack/_struct_unpack")
+
     def fmt_of(f, fn: str) -> str:
-        for n in own_nodes(f.node):
-            if isinstance(n, ast.Call) and norm(n.func) == f"struct.{fn}" and isinstance(n.args[0], ast.Constant):
-                return n.args[0].value
+        for g, n in _pool(_scope(ctx, f)):
+            if isinstance(n, ast.Call) and norm(n.func) in (f"struct.{fn}", fn) and n.args:
+                v = _fold_or_none(ctx, g, n.args[0])
+                if isinstance(v, str):
+                    return v
         raise AnalysisError(f"struct.{fn} format not found in {f.short}")
 
     pf, uf = fmt_of(pack, "pack"), fmt_of(unpack, "unpack")
@@ -74,47 +121,77 @@ def check(ctx: Ctx) -> list[RuleResult]:
             r1.fail(f"struct:field:{nm}", pack.loc(), f"field '{nm}' is packed at {pflds[i] if i < len(pflds) else None} but unpacked from {uflds[i] if i < len(uflds) else None}")
     r1.instances += 1
     r1.nontrivial += 1
-    strides = [n for n in own_nodes(dec.node) if isinstance(n, ast.Call) and norm(n.func) == "range" and len(n.args) == 3]
-    slices = [n for n in own_nodes(dec.node) if isinstance(n, ast.Subscript) and isinstance(n.slice, ast.Slice) and "raw_schedule" in norm(n.value)]
-    stride = ctx.consts.eval_in(dec, strides[0].args[2]) if strides else None
-    sl_ok = any(norm(s.slice.upper) == f"i + {ps}" for s in slices if s.slice.upper is not None)
-    if stride == ps and sl_ok:
-        r1.ok({"stride": stride})
+    steps, widths = _strides_and_widths(ctx, dec_scope)
+    if not steps or not widths:
+        raise AnalysisError("fragz_to_full_sched: the record loop (range step / record slice) was not found")
+    if set(steps) == {ps} and set(widths) == {ps}:
+        r1.ok({"stride": ps, "record_slice_width": ps})
     else:
-        r1.fail("struct:stride", dec.loc(), f"fragz_to_full_sched walks the blob in steps of {stride} but a record is {ps} bytes")
+        r1.fail("struct:stride", dec.loc(), f"fragz_to_full_sched walks the blob in steps of {sorted(set(steps))} and cuts records of {sorted(set(widths))} bytes, but a record is {ps} bytes")
     out.append(r1)
 
     # ---- R2 ---------------------------------------------------------------------------
     r2 = RuleResult("R2", "scaling and field codecs agree", "setpoint round(x*100) vs /100; tod hh*60+mm vs divmod(tod,60); idx int(_,16) vs :02X", min_instances=4)
     r2.instances += 1
     r2.nontrivial += 1
-    trunc = float_scaling_sites(ctx, [pack])
-    scal = [n for n in own_nodes(pack.node) if isinstance(n, ast.Call) and norm(n.func) in ("round", "int") and n.args and isinstance(n.args[0], ast.BinOp) and isinstance(n.args[0].op, ast.Mult) and norm(n.args[0].right) == "100"]
+    pack_scope = _scope(ctx, pack)
+    trunc = float_scaling_sites(ctx, pack_scope)
+    scal = [n for _g, n in _pool(pack_scope) if isinstance(n, ast.Call) and norm(n.func) in ("round", "int") and n.args and isinstance(n.args[0], ast.BinOp) and isinstance(n.args[0].op, ast.Mult) and "100" in (norm(n.args[0].right), norm(n.args[0].left))]
     if trunc:
-        r2.fail(f"{pack.short}:{trunc[0][2][:50]}", pack.loc(trunc[0][1]), f"`{trunc[0][2]}` truncates: setpoints such as 19.99 would be packed one LSB low")
+        r2.fail(f"{pack.short}:{trunc[0][2][:50]}", trunc[0][0].loc(trunc[0][1]), f"`{trunc[0][2]}` truncates: setpoints such as 19.99 would be packed one LSB low")
     elif scal:
         r2.ok({"setpoint_scaling": norm(scal[0])})
     else:
         raise AnalysisError("_struct_pack: setpoint scaling not found")
     r2.instances += 1
     r2.nontrivial += 1
-    sp = dec.nested.get("setpoint")
-    if sp is not None and any(isinstance(n, ast.BinOp) and isinstance(n.op, ast.Div) and norm(n.right) == "100" for n in own_nodes(sp.node)):
-        r2.ok({"setpoint_decoding": "value / 100"})
+    divs = [n for _g, n in _pool(dec_scope) if isinstance(n, ast.BinOp) and isinstance(n.op, ast.Div) and _fold_or_none(ctx, _g, n.right) == 100]
+    muls = [n for _g, n in _pool(dec_scope) if isinstance(n, ast.BinOp) and isinstance(n.op, (ast.Mult, ast.FloorDiv)) and any(_fold_or_none(ctx, _g, x) in (0.01, 100) for x in (n.left, n.right))]
+    if divs and not muls:
+        r2.ok({"setpoint_decoding": norm(divs[0])})
     else:
-        r2.fail(f"{dec.short}:setpoint-decoding", dec.loc(), "the setpoint is no longer decoded as value / 100")
+        r2.fail(f"{dec.short}:setpoint-decoding", dec.loc(), f"the setpoint is no longer decoded by an exact division by 100 ({[norm(m) for m in muls][:2]})")
     r2.instances += 1
     r2.nontrivial += 1
-    tod_enc = [n for n in own_nodes(pack.node) if isinstance(n, ast.Assign) and norm(n.targets[0]) == "tod"]
-    tod_dec = [n for n in own_nodes(dec.node) if isinstance(n, ast.Call) and norm(n.func) == "divmod" and norm(n.args[0]) == "tod"]
-    if tod_enc and norm(tod_enc[0].value) == "int(tod_[:2]) * 60 + int(tod_[3:])" and tod_dec and norm(tod_dec[0].args[1]) == "60" and "'{:02d}:{:02d}'.format(*divmod(tod, 60))" in norm(dec.node):
-        r2.ok({"time_of_day": "hh*60+mm <-> '{:02d}:{:02d}'.format(*divmod(tod, 60))"})
+    from .common import expand as _expand
+
+    def _is_int_of_slice(e: ast.expr, lo: str | None, hi: str | None) -> bool:
+        if not (isinstance(e, ast.Call) and norm(e.func) == "int" and len(e.args) == 1 and isinstance(e.args[0], ast.Subscript) and isinstance(e.args[0].slice, ast.Slice)):
+            return False
+        sl = e.args[0].slice
+        return (norm(sl.lower) if sl.lower is not None else None) == lo and (norm(sl.upper) if sl.upper is not None else None) == hi
+
+    tod_enc = []
+    for g, n in _pool(pack_scope):
+        if isinstance(n, ast.BinOp) and isinstance(n.op, ast.Add):
+            e = _expand(g.node, n, pure_only=False)
+            for a, b in ((e.left, e.right), (e.right, e.left)):
+                if isinstance(a, ast.BinOp) and isinstance(a.op, ast.Mult):
+                    for h, k in ((a.left, a.right), (a.right, a.left)):
+                        if norm(k) == "60" and _is_int_of_slice(h, None, "2") and _is_int_of_slice(b, "3", None):
+                            tod_enc.append(n)
+    # decoder: divmod(_, 60) (or // 60 with % 60) rendered with two zero-padded 2-digit fields around ':'
+    dm = [n for _g, n in _pool(dec_scope) if isinstance(n, ast.Call) and norm(n.func) == "divmod" and len(n.args) == 2 and norm(n.args[1]) == "60"]
+    fd = [n for _g, n in _pool(dec_scope) if isinstance(n, ast.BinOp) and isinstance(n.op, ast.FloorDiv) and norm(n.right) == "60"]
+    md = [n for _g, n in _pool(dec_scope) if isinstance(n, ast.BinOp) and isinstance(n.op, ast.Mod) and norm(n.right) == "60" and not isinstance(n.left, ast.Constant)]
+    fmt_ok = False
+    for _g, n in _pool(dec_scope):
+        if isinstance(n, ast.Call) and isinstance(n.func, ast.Attribute) and n.func.attr == "format" and isinstance(n.func.value, ast.Constant) and isinstance(n.func.value.value, str) and re.fullmatch(r"\{(0|1)?:02d?\}:\{(0|1)?:02d?\}", n.func.value.value):
+            fmt_ok = True
+        if isinstance(n, ast.JoinedStr):
+            parts = n.values
+            if len(parts) == 3 and isinstance(parts[1], ast.Constant) and parts[1].value == ":" and all(isinstance(p_, ast.FormattedValue) and p_.format_spec is not None and norm(p_.format_spec) in ("f'02d'", "f'02'") for p_ in (parts[0], parts[2])):
+                fmt_ok = True
+        if isinstance(n, ast.BinOp) and isinstance(n.op, ast.Mod) and isinstance(n.left, ast.Constant) and n.left.value in ("%02d:%02d",):
+            fmt_ok = True
+    if tod_enc and (dm or (fd and md)) and fmt_ok:
+        r2.ok({"time_of_day": "int(hh) * 60 + int(mm) <-> divmod(tod, 60) rendered as %02d:%02d", "encoder": norm(tod_enc[0])[:60]})
     else:
-        r2.fail("tod:codec", pack.loc(), "time-of-day is no longer packed as hh*60+mm and unpacked with divmod(tod, 60) into 'hh:mm'")
+        r2.fail("tod:codec", pack.loc(), f"time-of-day is no longer packed as hh*60+mm (found: {bool(tod_enc)}) and unpacked with divmod(tod, 60) (found: {bool(dm or (fd and md))}) into a zero-padded 'hh:mm' (found: {fmt_ok})")
     r2.instances += 1
     r2.nontrivial += 1
-    idx_enc = any(isinstance(n, ast.Assign) and norm(n.targets[0]) == "idx" and norm(n.value) == "int(idx_, 16)" for n in own_nodes(pack.node))
-    idx_dec = "f'{idx:02X}'" in norm(dec.node)
+    idx_enc = any(isinstance(n, ast.Call) and norm(n.func) == "int" and len(n.args) == 2 and norm(n.args[1]) == "16" for _g, n in _pool(pack_scope))
+    idx_dec = any((isinstance(n, ast.FormattedValue) and n.format_spec is not None and norm(n.format_spec) == "f'02X'") or (isinstance(n, ast.Call) and isinstance(n.func, ast.Attribute) and n.func.attr == "format" and isinstance(n.func.value, ast.Constant) and n.func.value.value in ("{:02X}", "{0:02X}")) for _g, n in _pool(dec_scope))
     if idx_enc and idx_dec:
         r2.ok({"zone_idx": "int(_, 16) <-> :02X"})
     else:
@@ -123,13 +200,13 @@ def check(ctx: Ctx) -> list[RuleResult]:
 
     # ---- R3 ---------------------------------------------------------------------------
     r3 = RuleResult("R3", "a fragment fits a frame", "chunk size vs regex bound vs frame limit; the write payload shape ⊆ the W|0404 regex", min_instances=4)
-    chunks = [n for n in own_nodes(enc.node) if isinstance(n, ast.ListComp) and "blob[" in norm(n)]
-    if not chunks:
-        raise AnalysisError("full_sched_to_fragz: chunking comprehension not found")
-    lc = chunks[0]
-    step = ctx.consts.eval_in(enc, lc.generators[0].iter.args[2])  # type: ignore[union-attr]
-    width_m = re.search(r"i \+ (\d+)", norm(lc.elt))
-    width = int(width_m.group(1)) if width_m else None
+    # the chunking of the hex blob: a `range(0, len(blob), step)` walk cutting `blob[i : i + width]`, wherever it is written
+    c_steps, c_widths = _strides_and_widths(ctx, [g for g in enc_scope if g not in pack_scope])
+    if not c_steps or not c_widths:
+        raise AnalysisError("full_sched_to_fragz: the chunking loop (range step / slice width) was not found")
+    lc = next((n for _g, n in _pool(enc_scope) if isinstance(n, ast.Call) and norm(n.func) == "range" and len(n.args) == 3), None)
+    step = c_steps[0] if len(set(c_steps)) == 1 else None
+    width = c_widths[0] if len(set(c_widths)) == 1 else None
     schema = ctx.const("ramses_tx.ramses", "CODES_SCHEMA")
     r3.instances += 1
     r3.nontrivial += 1
@@ -179,8 +256,15 @@ def check(ctx: Ctx) -> list[RuleResult]:
         raise AnalysisError("set_schedule_fragment: payload shape not checked")
     r3.instances += 1
     r3.nontrivial += 1
-    fl = [n for n in own_nodes(setf.node) if isinstance(n, ast.Assign) and norm(n.targets[0]) == "frag_length"]
-    if fl and norm(fl[0].value) == "int(len(fragment) / 2)":
+    # the length octet is the fragment's byte count: the FormattedValue after the header in the payload template
+    from .common import expand as _expand2
+
+    fl_ok = False
+    for n in own_nodes(setf.node):
+        if isinstance(n, ast.FormattedValue) and n.format_spec is not None and norm(n.format_spec) == "f'02X'":
+            if _half_len(_expand2(setf.node, n.value, pure_only=False), "fragment"):  # type: ignore[arg-type]
+                fl_ok = True
+    if fl_ok:
         r3.ok({"frag_length": "len(fragment) / 2, formatted :02X"})
     else:
         r3.fail("set_schedule_fragment:frag_length", setf.loc(), "frag_length is no longer the fragment's byte count")
@@ -227,7 +311,9 @@ def check(ctx: Ctx) -> list[RuleResult]:
     r5 = RuleResult("R5", "a received fragment is never discarded", "in _update_payload_set every path after the fragment-count test stores the fragment in its slot (or starts a new set with it)", min_instances=1)
     ups = repo.func("ramses_rf.system.schedule.Schedule._update_payload_set")
     cfgu = ctx.plain_cfg(ups)
-    count_tests = [t for t in cfgu.nodes if t.kind == "test" and isinstance(t.ast, ast.Compare) and len(t.ast.ops) == 1 and isinstance(t.ast.ops[0], (ast.NotEq, ast.Eq)) and "SZ_TOTAL_FRAGS" in norm(t.ast) and "payload_set" in norm(t.ast)]
+    from .common import expand as _expand5
+
+    count_tests = [t for t in cfgu.nodes if t.kind == "test" and isinstance(t.ast, ast.Compare) and len(t.ast.ops) == 1 and isinstance(t.ast.ops[0], (ast.NotEq, ast.Eq)) and "SZ_TOTAL_FRAGS" in norm(_expand5(ups.node, t.ast, pure_only=False)) and "payload_set" in norm(_expand5(ups.node, t.ast, pure_only=False))]
     if not count_tests:
         raise AnalysisError("_update_payload_set: the fragment-count test was not found")
 
@@ -238,7 +324,30 @@ def check(ctx: Ctx) -> list[RuleResult]:
         if isinstance(a, ast.Assign) and isinstance(a.targets[0], ast.Subscript) and norm(a.targets[0].value) == "payload_set" and norm(a.value) == "payload":
             return True
         # (re)starting a set with this fragment: a call of the local initialiser with the fragment
-        return any(isinstance(c, ast.Call) and isinstance(c.func, ast.Name) and c.func.id in ups.nested and any(norm(arg) == "payload" for arg in c.args) for c in ast.walk(a))
+        return any(isinstance(c, ast.Call) and _restarts_with(c) for c in ast.walk(a))
+
+    def _restarts_with(c: ast.Call) -> bool:
+        """a call handing the fragment to a (nested or same-class) initialiser that stores that parameter in a slot of a new list"""
+        pos = [i for i, arg in enumerate(c.args) if norm(arg) == "payload"]
+        if not pos:
+            return False
+        cands = []
+        if isinstance(c.func, ast.Name) and c.func.id in ups.nested:
+            cands.append((ups.nested[c.func.id], 0))
+        else:
+            for cs in ctx.cg.calls_in(ups):
+                if cs.node is c:
+                    for callee in cs.callees:
+                        a0 = callee.node.args.args
+                        cands.append((callee, 1 if a0 and a0[0].arg in ("self", "cls") else 0))
+        for callee, off in cands:
+            params = [x.arg for x in callee.node.args.args]
+            for i in pos:
+                if i + off < len(params):
+                    pn = params[i + off]
+                    if any(isinstance(n, ast.Assign) and isinstance(n.targets[0], ast.Subscript) and norm(n.value) == pn for n in own_nodes(callee.node)):
+                        return True
+        return False
 
     for t in count_tests:
         r5.instances += 1
@@ -303,4 +412,32 @@ def check(ctx: Ctx) -> list[RuleResult]:
         else:
             r6.fail(f"{ups.short}:decodes-incomplete-set", ups.loc(c), f"`{norm(c)}` can be reached while a slot of {arg} is still None: a set with a gap is handed to the decoder, and whether the held fragments inflate to a (different) schedule is data-dependent")
     out.append(r6)
+
+    # ---- R7 ---------------------------------------------------------------------------
+    # The decoded schedule is edited in place by its consumers (_proc_payload_set sets schedule[zone_idx] = "HW" for hot water): a
+    # memoised decoder would hand the same dict to every zone whose fragments are byte-identical, so one zone's edit shows up in
+    # another's schedule - "a different schedule".
+    r7 = RuleResult("R7", "decoded schedules are not shared objects", "no function of the schedule codec path is memoised while returning a mutable container", min_instances=4)
+    MUT = ("I:builtins.dict", "I:builtins.list", "I:builtins.set", "I:builtins.bytearray")
+    for g in sorted(set(dec_scope + enc_scope + [pps, ups]), key=lambda x: x.qualname):
+        r7.instances += 1
+        r7.nontrivial += 1
+        cached = [d for d in g.decorators if "lru_cache" in d or d in ("cache", "functools.cache")]
+        if not cached:
+            r7.ok({"function": g.short, "memoised": False})
+            continue
+        bad = None
+        for n in own_nodes(g.node):
+            if isinstance(n, ast.Return) and n.value is not None:
+                at = set(ctx.cg.atoms(g, n.value) or ("Any",))
+                if isinstance(n.value, (ast.Dict, ast.List, ast.Set, ast.DictComp, ast.ListComp, ast.SetComp)) or any(a in MUT or a.startswith("I:collections") or a.startswith("TD:") for a in at):
+                    bad = n
+        ann = norm(g.node.returns) if g.node.returns is not None else ""
+        if bad is None and any(k in ann for k in ("dict", "list", "Schedule", "Dict", "List")):
+            bad = g.node
+        if bad is not None:
+            r7.fail(f"{g.short}:cached-mutable-result", g.loc(bad), f"{g.short} is memoised ({cached[0][:30]}) and returns a mutable container: zones (or successive reads) whose fragments are identical share one schedule object, and the in-place edits made by _proc_payload_set/callers leak between them")
+        else:
+            r7.ok({"function": g.short, "memoised": True, "returns": "immutable values only"})
+    out.append(r7)
     return out
